@@ -400,6 +400,8 @@ impl Client {
     }
 
     fn handle_handshake_syn_ack(&mut self, frame: frame::HandshakeSynAckFrame) {
+        let now_ms = self.now_ms();
+
         match self.state {
             State::Pending(ref mut state) => {
                 // If the server responds to our SYN with a matching SYN+ACK, it has already
@@ -457,7 +459,7 @@ impl Client {
                     self.state = State::Active(ActiveState {
                         local_nonce: state.local_nonce,
                         half_connection,
-                        timeout_time_ms: self.config.endpoint_config.active_timeout_ms,
+                        timeout_time_ms: now_ms + self.config.endpoint_config.active_timeout_ms,
                         disconnect_signal: None,
                     });
                 }
